@@ -5,7 +5,7 @@
 (* draw returns. A directory cell is [e, p, k]: exists, payload id, chunks *)
 (* present (a 0-byte reservation is [e |-> TRUE, p |-> "", k |-> 0]; a      *)
 (* payload has two chunks). Writers are w -> [st, name, k, pay] with st in  *)
-(* open, cf (Close failed), closed, aborted.                               *)
+(* open, cf (Close failed before the rename), cfr (Close failed after it), closed, aborted.                               *)
 (*                                                                         *)
 (* The same operators serve two uses: Spec lets TLC explore every call     *)
 (* sequence over a small domain and check ScanExact / NoClobber /          *)
@@ -47,10 +47,15 @@ DoWrite(s, w, fault) ==
   IF x.st # "open" \/ fault # "" THEN [s |-> s, res |-> "err"]
   ELSE [s |-> [s EXCEPT !.tmp[x.name] = [e |-> TRUE, p |-> x.pay, k |-> x.k + 1], !.wr[w].k = x.k + 1], res |-> "ok"]
 
-\* Close publishes: the temp replaces the reservation. A failure before the rename leaves both in place.
+\* Close publishes: the temp replaces the reservation. A failure before the rename leaves both in place. A failure
+\* of the directory fsync comes after the rename: Close reports an error while the complete file already sits at the
+\* final name (writer state "cfr"), visible to scans until Abort or TombstoneFile removes it - the documented
+\* transient of renameOnCloseFile, modelled as what it is.
 DoClose(s, w, fault) ==
   LET x == s.wr[w] IN
   IF x.st # "open" THEN [s |-> s, res |-> "err"]
+  ELSE IF fault = "dirsync"
+         THEN [s |-> [s EXCEPT !.dat[x.name] = s.tmp[x.name], !.tmp[x.name] = None, !.wr[w].st = "cfr"], res |-> "err"]
   ELSE IF fault # "" THEN [s |-> [s EXCEPT !.wr[w].st = "cf"], res |-> "err"]
   ELSE [s |-> [s EXCEPT !.dat[x.name] = s.tmp[x.name], !.tmp[x.name] = None, !.wr[w].st = "closed"], res |-> "ok"]
 
